@@ -10,7 +10,7 @@ os.chdir('/verif/coq')
 names=[]
 for m in mods:
     src=open('proofs/%s.v'%m).read()
-    names+= [(m,n) for n in re.findall(r'^\s*Theorem (\w+)', src, re.M)]
+    names+= [(m,n) for n in re.findall(r'^\s*(?:Theorem|Corollary) (\w+)', src, re.M)]
 hdr='From Coq Require String.\nImport (notations) String.\nFrom Coq Require Import Permutation.\nFrom Tabula Require Import %s %s.\n'%(' '.join(imports),' '.join('proofs.'+m for m in mods))
 tmp=hdr+'Set Printing Width 100000.\nSet Printing Depth 100000.\n'+''.join('Check %s.\n'%n for _,n in names)
 open('/tmp/mkprops.v','w').write(tmp)
